@@ -100,11 +100,11 @@ JudgeItem(e) ==
          [] m = "shallow_size" -> RetEq(e.ret, RVal(IF a[1].k = "list" THEN Len(a[1].v) + 1 ELSE 1))
          [] m = "traverse" -> RetEq(e.ret, IF a[2] < Size(a[1]) THEN RSome(Extract(a[1], a[2])) ELSE RNone)
          [] m = "insert" -> RetEq(e.ret, IF a[3] < Size(a[1]) THEN RSome(InsertPt(a[1], a[2], a[3])) ELSE [t |-> "none", v |-> a[1]])
-         [] m = "contains" -> Fuzzy(a[1]) \/ Fuzzy(a[2]) \/ RetEq(e.ret, RVal(Position(a[1], a[2])))
-         [] m = "container" -> Fuzzy(a[1]) \/ Fuzzy(a[2]) \/
+         [] m = "contains" -> StructFuzzy(a[1]) \/ StructFuzzy(a[2]) \/ RetEq(e.ret, RVal(Position(a[1], a[2])))
+         [] m = "container" -> StructFuzzy(a[1]) \/ StructFuzzy(a[2]) \/
                                (LET c == ContainerOf(a[1], a[2]) IN RetEq(e.ret, IF c.found THEN RSome(c.item) ELSE RNone))
-         [] m = "substitute" -> Fuzzy(a[1]) \/ Fuzzy(a[2]) \/ RetEq(e.ret, RVal(Subst(a[1], a[2], a[3])))
-         [] m = "equals" -> Fuzzy(a[1]) \/ Fuzzy(a[2]) \/ RetEq(e.ret, RVal(DeepEq(a[1], a[2])))
+         [] m = "substitute" -> StructFuzzy(a[1]) \/ StructFuzzy(a[2]) \/ RetEq(e.ret, RVal(Subst(a[1], a[2], a[3])))
+         [] m = "equals" -> StructFuzzy(a[1]) \/ StructFuzzy(a[2]) \/ RetEq(e.ret, RVal(DeepEq(a[1], a[2])))
          [] m = "shallow_eq" -> RetEq(e.ret, RVal(ShallowEq(a[1], a[2])))
          [] m = "to_string" -> Fuzzy(a[1]) \/ RetEq(e.ret, RVal(PrintItem(a[1])))
          [] OTHER -> FALSE,
